@@ -42,10 +42,11 @@ public:
 protected:
     friend class UnsatCoreBuilder;
 
-    inline NamedUnsatCore(TermNames const &, vec<PTRef> && namedTerms_, vec<PTRef> && hiddenTerms_);
+    inline NamedUnsatCore(Logic const &, TermNames const &, vec<PTRef> && namedTerms_, vec<PTRef> && hiddenTerms_);
 
     void printTerm(std::ostream &, PTRef) const override;
 
+    Logic const & logic;
     TermNames const & termNames;
 
     vec<PTRef> namedTerms;
@@ -73,8 +74,10 @@ protected:
 
 ////////////////////////////////////////////////////////////////////////////////
 
-NamedUnsatCore::NamedUnsatCore(TermNames const & termNames_, vec<PTRef> && namedTerms_, vec<PTRef> && hiddenTerms_)
-    : termNames{termNames_},
+NamedUnsatCore::NamedUnsatCore(Logic const & logic_, TermNames const & termNames_, vec<PTRef> && namedTerms_,
+                               vec<PTRef> && hiddenTerms_)
+    : logic{logic_},
+      termNames{termNames_},
       namedTerms{std::move(namedTerms_)},
       hiddenTerms{std::move(hiddenTerms_)} {
     assert(namedTerms.size() > 0 || hiddenTerms.size() > 0);
